@@ -116,6 +116,8 @@ pub fn panic_sig(msg: &str) -> String {
 /// Split `msg at a/b/c` into (msg, path). darling joins the location with `/`.
 pub fn split_at(display: &str) -> (String, Vec<String>) {
     match display.rfind(" at ") {
+        // "Too few items: Expected at least 1" carries no location
+        Some(i) if display[i + 4..].starts_with("least ") => (display.to_string(), vec![]),
         Some(i) => {
             let (m, p) = display.split_at(i);
             let p = &p[4..];
